@@ -48,6 +48,7 @@ type c20shape struct {
 	multiSubtable       bool // a lookup with several subtables
 	otherTypes          bool // lookups of types 2, 5, 6, 8 mixed in (not name sources)
 	emptyLigIn          bool // a ligature with no further components
+	unlisted            bool // a lookup that no feature lists
 	otherOut            map[glyph.ID]bool
 }
 
@@ -281,10 +282,23 @@ func c20gsub(r *rand.Rand, n int) (*gtab.Info, []c20rule, *c20shape) {
 		info.LookupList = append(info.LookupList, other())
 	}
 	feat := &gtab.Feature{Tag: "liga"}
+	// a third of the tables: some lookups are listed by no feature (they are
+	// reached as nested actions only, or not at all) - the rules they hold are
+	// rules of the font all the same; one table in nine has no feature at all
+	drop := r.IntN(3) == 0
 	for i := range info.LookupList {
+		if drop && r.IntN(2) == 0 {
+			sh.unlisted = true
+			continue
+		}
 		feat.Lookups = append(feat.Lookups, gtab.LookupIndex(i))
 	}
 	info.FeatureList = gtab.FeatureListInfo{feat}
+	if drop && r.IntN(3) == 0 {
+		info.FeatureList = nil
+		info.ScriptList = gtab.ScriptListInfo{}
+		sh.unlisted = true
+	}
 	return info, rules, sh
 }
 
@@ -600,6 +614,9 @@ func runC20(c *mon.Ctx) {
 		if shape.emptyLigIn {
 			k.Class("gsub:ligature-of-one-glyph")
 		}
+		if shape.unlisted {
+			k.Class("gsub:lookup-listed-by-no-feature")
+		}
 		if n > 1000 {
 			k.Class("glyphs>1000")
 			for _, s := range list {
@@ -759,7 +776,7 @@ func runC20(c *mon.Ctx) {
 			k.Sample(fmt.Sprintf("family %q -> %q", f.FamilyName, ps))
 		}
 	})
-	c.Require("pattern=complete", "pattern=none", "pattern=holes", "pattern=duplicates", "pattern=placeholder-clash", "pattern=derived-clash", "pattern=invalid", "pattern=cid-keyed", "pattern=short-list", "pattern=long-list",
+	c.Require("gsub:lookup-listed-by-no-feature", "pattern=complete", "pattern=none", "pattern=holes", "pattern=duplicates", "pattern=placeholder-clash", "pattern=derived-clash", "pattern=invalid", "pattern=cid-keyed", "pattern=short-list", "pattern=long-list",
 		"gsub:glyph-0-as-input", "gsub:glyph-0-as-output", "gsub:name-derived-from-.notdef", "gsub:several-subtables-per-lookup", "gsub:other-lookup-types-mixed-in", "gsub:ligature-of-one-glyph",
 		"glyphs>1000", "placeholder:four-digits",
 		"source:given", "source:cmap", "source:substitution", "source:placeholder", "two-rules-one-target", "makesimple", "psname")
